@@ -22,7 +22,7 @@ TEXT = {
     "C13": ("NRInv, inductive over every label incl. the removal of the last stream: the no-reader flag is raised only when the stream list is empty, then no receiver handle is counted anywhere and an empty list is final; a send that starts afterwards returns Disconnected without touching the ring; tie: sequential differential + fut parking race", "invariant proof + differential"),
     "C14": ("WakeInv for the futures wait: a consumer task parked on the list whose condition holds has a pending notifier that stays pending until it has drained the list (hypothesis: the list lock is mutual exclusion); park re-checks under the lock, notify drains, sink parks only after a locked Full, poll on Empty notifies producers; producers' side (space available => notifier pending) is covered by hang verdicts only; tie: event correspondence + hang verdicts", 'invariant proof (Lean, no-lost-wakeup for parked consumers) + protocol step theorems + hang verdicts'),
     "C15": ("Sink/Stream programs refine the same Spec steps as the plain calls; bounded own steps of poll/start_send; tie: fut family + sequential differential", "refinement + event correspondence"),
-    "C16": ("epoch invariant proved inductive over every label of the micro-step model: a dereferenced group and the position blocks of its streams are never released; a released batch needs every registered token at the epoch, which a holder's token is not; retired objects are never reachable again; under explicit hypotheses (ring StepOK, mutex mutual exclusion, handle ownership); tie: every manager event (locks, try_locks, epoch, tokens, signal bits) compared with the model on real executions + use-after-free / double-free monitor with quarantined deallocation", "invariant proof (Lean, EpochInv over RingInv+MgrInv) + event correspondence + allocation-ledger monitor"),
+    "C16": ("no stream list and no position block is released twice (each enters the retirement pipeline at most once); epoch invariant proved inductive over every label of the micro-step model: a dereferenced group and the position blocks of its streams are never released; a released batch needs every registered token at the epoch, which a holder's token is not; retired objects are never reachable again; under explicit hypotheses (ring StepOK, mutex mutual exclusion, handle ownership); tie: every manager event (locks, try_locks, epoch, tokens, signal bits) compared with the model on real executions + use-after-free / double-free monitor with quarantined deallocation", "invariant proof (Lean, EpochInv over RingInv+MgrInv) + event correspondence + allocation-ledger monitor"),
     "C17": ("invariant of the epoch manager (mutex ownership, epochs, batch never overwritten) and conservation of the retirement pipeline (multiset of waiting+pending+released = multiset passed to free) for every execution with mutual-exclusion mutexes; teardown empties both lists; tie: every lock/try_lock/epoch/token event compared with the model + counting allocator on real histories (teardown to zero, churn plateaus)", "invariant proof (Lean) + event correspondence + allocation counting"),
     "C18": ("strictly decreasing natural-number measure on every own step of a try operation, for arbitrary states of the other threads; proved for every state (reachable or not) of the other threads; tie: event-level correspondence incl. solo / freeze-then-solo schedules of the real code, whose step bound is the monitor", "termination measure proof + solo-run correspondence"),
     "C19": ("auto-trait table generated from the sources, resolver in Lean, theorem by decide over the whole finite table; tie: probe crate evaluates Send/Sync with rustc for the same matrix", "decide over the generated finite table + rustc probe"),
